@@ -329,8 +329,11 @@ class ReaderView:
             raise AnalysisError(f"socket_read_task: expected one codec.decode call, found {len(self.decode_calls)}")
         self.decode_call = self.decode_calls[0]
         self.decode_nodes = self.cfg.ids_of(self.decode_call)
-
-
+        # the reader the rules know: decode(<the receive buffer attribute>) whose three results are bound to three names in one statement
+        par = getattr(self.decode_call, "_parent", None)
+        a0 = self.decode_call.args[0] if self.decode_call.args else None
+        if not (isinstance(par, ast.Assign) and isinstance(par.targets[0], ast.Tuple) and len(par.targets[0].elts) == 3):
+            raise AnalysisError("socket_read_task: the decode result is no longer unpacked into three names")
 def extent_findings(dv: DecoderView):
     """C01 rule 1 / C03 shared construct: the frame extent is delimited only by SOH-anchored
     searches (next-frame marker, CheckSum trailer), never by a bare marker search, and not by
